@@ -264,9 +264,10 @@ class Extractor:
                 lo = self.parse_opts(a[1:])
                 if lo.get("iter"):
                     cur.setdefault("loop_iter", {})[int(a[0])] = lo["iter"]
-            elif s.startswith("//@proof_after "):
-                a = shlex.split(s[len("//@proof_after "):])
-                pa = {"regex": a[0], "text": []}
+            elif s.startswith("//@proof_after ") or s.startswith("//@proof_before "):
+                before = s.startswith("//@proof_before ")
+                a = shlex.split(s.split(" ", 1)[1])
+                pa = {"regex": a[0], "text": [], "before": before}
                 cur["proof_after"].append(pa)
                 sub = pa["text"]
             elif s.startswith("//@proof_end"):
@@ -402,13 +403,13 @@ class Extractor:
         for n in f["loops"]:
             if n >= len(loops):
                 raise LostAnchor("fn %s has %d loops, contract names loop %d" % (name, len(loops), n))
-        pa_lines = {}
+        pa_lines, pb_lines = {}, {}
         for pa in f["proof_after"]:
             hits = [k for k in range(open_ln, last + 1)
                     if re.search(pa["regex"], self.code_line(src, k))]
             if len(hits) != 1:
                 raise LostAnchor("proof_after %r in fn %s matched %d lines" % (pa["regex"], name, len(hits)))
-            pa_lines[hits[0]] = pa["text"]
+            (pb_lines if pa.get("before") else pa_lines)[hits[0]] = pa["text"]
         drop_tail = fo.get("drop_tail")
         tail_dropped = False
         k = open_ln
@@ -416,6 +417,11 @@ class Extractor:
             l = src.lines[k]
             if k == open_ln:
                 l = " " * (p_open - src.starts[k]) + l[p_open - src.starts[k]:]
+            if k in pb_lines:
+                for pl in pb_lines[k]:
+                    if pl.strip():
+                        self.out.emit(pl)
+                        self.hit("I4.proof_lines")
             if drop_tail and re.search(drop_tail, self.code_line(src, k)):
                 if tail_dropped:
                     raise LostAnchor("drop_tail matched twice in fn %s" % name)
